@@ -464,9 +464,9 @@ Section StepG.
       injection Hm as <- <- <-.
       assert (G1 : good y s1).
       { destruct Gy. constructor; rewrite ?K1st, ?K1cy, ?K1fi, ?K1nv, ?K1of, ?K1ng, ?K1pa, ?K1co, ?K1or, ?K1pg; auto.
-        - intros H. rewrite Hk in H. lia.
-        - intros _. rewrite <- K1ng. lia.
-        - intros H. rewrite Hk in H. lia. }
+        - intros H. rewrite Hk in H. clear - H. lia.
+        - intros _. rewrite <- K1ng. clear - Ez Hlen. lia.
+        - intros H. rewrite Hk in H. clear - H. lia. }
       split; [|split; [apply evok_nil; rewrite K1fi; reflexivity|split; [exact Po1|intros Hc; rewrite K1st in Hc; congruence]]].
       apply (step_frame d stop rn S pd y s1 x (l1 ++ l2) [] HI Ry Hact Hxy G1).
       - intros x' Hx'. assert (Hx'y : x' <> y) by (apply nbr_ne; exact Hx').
